@@ -101,6 +101,12 @@ func runC07(o opts) error {
 		for v, m := range []int{0, 1 << 1, 1 << 14, 1<<1 | 1<<14, full, full &^ (1 << 1), full &^ (1 << 14), full &^ (1<<1 | 1<<14),
 			rng.Intn(1 << 15), rng.Intn(1<<15) &^ (1<<1 | 1<<14), rng.Intn(1<<15) | 1<<14, rng.Intn(1<<15) | 1<<1} {
 			scns = append(scns, c07.WidgetSession(m, v%2 == 1, v), c07.WidgetSession(m, v%2 == 0, v+rng.Intn(12)))
+			// ... and after the process has run another Vaxis, on a terminal that measures the other way
+			for _, flip := range []int{1 << 1, 1 << 14, 1<<1 | 1<<14} {
+				ws := c07.WidgetSession(m, v%2 == 1, v+flip%7)
+				ws.Kind, ws.Prior = "caps-widget-second", 1+(m^flip)
+				scns = append(scns, ws)
+			}
 			// the same widgets on terminals that name themselves: a kitty without mode 2027 shows the parts of a
 			// joined emoji sequence on their own (Vaxis measures with its no-joiner method there)
 			// (the variants chosen for kitty hold no variation-selector emoji: a real kitty shows U+263A U+FE0F
